@@ -41,6 +41,12 @@ def stepPath (_ : Unit) (ts : List String) : Unit × String :=
   | ["path", h] => match hexToStr h with
     | some n => ((), pathAnswer n)
     | none => ((), "unmodelled invalid-utf8")
+  | ["canon"] => ((), "rejected")
+  | ["canon", h] => match hexToStr h with
+    | some n => match sanitize n with
+      | .error _ => ((), "rejected")
+      | .ok p => ((), if p = n then "canonical" else "respelled")
+    | none => ((), "unmodelled invalid-utf8")
   | ["clean"] => ((), "= " ++ strToHex (pathClean []))
   | ["clean", h] => match hexToStr h with
     | some n => ((), "= " ++ strToHex (pathClean n))
